@@ -282,3 +282,19 @@ CHECKS = {
 
 # Properties not claimed (reason); filled automatically with "not built yet" when absent.
 NOT_APPLICABLE = {}
+
+# Additions to the generation rules made after the first build (kept apart so that the history of a rule stays readable).
+RULE_ADD = {
+    "C01": "Keys and values are handed over as slices of larger buffers (spare capacity filled with other bytes) that must be intact after the call; Batch objects are fresh, reused with Reset, pre-sized with MakeBatch or Loaded from another batch's Dump, and Len/Replay are compared with what was recorded.",
+    "C04": "Two thirds of the cases use tail-mode set 1, which adds cuts at 4 KiB page and 32 KiB journal-block boundaries followed by zeros up to the old length; one case in six has the long-journal shape (write buffer 128 KiB-1 MiB, 3-33 KB values, batches of up to 8 x 4 KiB) so that journal records straddle block boundaries.",
+    "C06": "Histories also contain recover (settle, Close, leveldb.Recover: every table re-registered in level 0 in file-number order), chain-forming churn (2-3 puts per buffer over 5-7 adjacent keys: transitive level-0 overlaps), sizeof, and in 30% of the cases a storage that delays table removal by 300 us.",
+    "C07": "sizeof steps (SizeOf over three nested ranges: non-negative, additive, bounded by the table bytes) take and release table-cache handles; 30% of the cases delay table removal by 300 us.",
+    "C12": "Reader reuse: every read is done twice, with a fresh Reader and with one that was used on another stream (opposite strictness, checksums off, left inside a spanning record) and then Reset; both must agree. Writer reuse: a Writer used on another output and then Reset must produce byte-identical output and complete the record it owed the old output; Writer.Size() equals the delivered bytes at every Flush.",
+    "C13": "Probes include the comparer's Separator of every adjacent stored pair and the Successor of the last key (the non-stored keys the writer puts into the index block); FindKey (filtered and not) is held to the same oracle as Find.",
+    "C14": "Up to three long-lived iterators are moved between Puts and Deletes: First/Last/Seek answer from the current contents, Prev from the key the iterator stands on, Next from its successor link (re-seek instead of Next when the pair it stands on was deleted).",
+    "C17": "Keys and namespaces are small, have the top bit set on every other one, or are scattered over all 64 bits; Gets go through Cache.Get, NamespaceGetter.Get or a lookup-only Get with a nil constructor.",
+    "C19": "A third of the cases keep an iterator open over the last steps of the history and release it immediately before Close; 30% delay table removal by 300 us; the settled-state premise (storage listing = live files) is checked before Close.",
+    "C20": "Every argument is a slice of a larger buffer whose spare capacity holds other bytes; the argument and the bytes behind it must be intact after the call (Put, Delete, Get, Has, Seek, SizeOf on DB, snapshot and transaction).",
+}
+for _k, _v in RULE_ADD.items():
+    CHECKS[_k]["rule"] += " " + _v
